@@ -468,7 +468,7 @@ def replay(o):
 
 
 INFO = dict(
-    assumptions=A.S_COMMON, trusted_base=A.TRUSTED, min_obligations=150, level="other",
+    assumptions=A.S_COMMON + [A.A10], trusted_base=A.TRUSTED, min_obligations=150, level="other",
     explanation="C03: engine V proves span search / valid / limits / degree / npts for all knot vectors of all lengths; acceptance <=> well-formedness is "
                 "decided exhaustively over all vectors up to the stated length over a 4-value alphabet (bounded stand-in, label B); queries and every "
                 "mutator (valid and invalid requests: result as specified and well-formed, or exception with the payload object untouched) with symbolic "
